@@ -119,7 +119,8 @@ def run_synth(spec, res):
     rng = np.random.default_rng(spec["seed"])
     for i in range(spec["n"]):
         nw, W = [(1, 1), (2, 1), (5, 5), (12, 3), (40, 10), (100, 10), (200, 10), (6, 2)][int(rng.integers(0, 8))]
-        case = dict(what="synth", rng=[int(v) for v in spec["seed"]] + [i], nw=nw, W=W, K=int(rng.integers(1, 6)), T=int(rng.integers(2, 120)),
+        case = dict(what="synth", rng=[int(v) for v in spec["seed"]] + [i], nw=nw, W=W, K=int(rng.integers(1, 6)),
+                    T=int(rng.integers(2, 120)) if i % 8 else int(rng.choice([4999, 5000, 5001, 9000, 20000])),
                     pattern=["one_run", "alternating", "unused", "blocks", "random"][int(rng.integers(0, 5))],
                     scale=float(rng.choice([1e-7, 1e-3, 1.0, 1e3, 1e7])), cov_scale=float(10 ** rng.uniform(-6, 6)),
                     straddle=bool(rng.random() < 0.4), tiny_variable=bool(i % 5 == 2))
